@@ -623,7 +623,9 @@ class Interp(object):
             out = kwargs.get('out')
             dc, fn = self.model.lookup(ci, '_call')
             if not isinstance(fn, ast.FunctionDef) or dc.name == 'Operator':
-                raise Undecided('%s has no _call' % ci.name)
+                # Operator._call of the base class: "does not implement
+                # `_call`"
+                raise PyRaise('NotImplementedError')
             pos = [p.arg for p in fn.args.args]
             has_out = 'out' in pos or 'out' in [p.arg for p in
                                                 fn.args.kwonlyargs]
@@ -1522,6 +1524,10 @@ class Interp(object):
                 return NI
             return scope.get(n.id, self)
         if isinstance(n, ast.Attribute):
+            if isinstance(n.value, ast.Call) and isinstance(
+                    n.value.func, ast.Name) and n.value.func.id == 'super' \
+                    and not scope.has('super'):
+                return self.super_attr(n, scope, func)
             obj = self.ev(n.value, scope, func)
             return self.getattr_value(obj, n.attr, func)
         if isinstance(n, ast.Call):
@@ -1982,6 +1988,25 @@ class Interp(object):
         if self.scalar_is_zero(s):
             res.taint |= set(v.val)
         return res
+
+    def super_attr(self, n, scope, func):
+        """`super(C, self).name` as a value: a property of a base class is
+        evaluated, a method is bound."""
+        selfv = scope.get('self', self)
+        if func is None or func.ci is None or not isinstance(selfv, Inst):
+            raise Undecided('super() attribute outside a method')
+        mro = self.model.mro(selfv.ci)
+        names = [c.name for c in mro]
+        if func.ci.name not in names:
+            raise Undecided('super(): class not in MRO')
+        for c in mro[names.index(func.ci.name) + 1:]:
+            if n.attr in c.methods:
+                m = c.methods[n.attr]
+                f = Func(m, self.method_env(selfv, c), c)
+                if c.is_property(n.attr):
+                    return self.call_func(f, [], {}, selfv)
+                return Bound(f, selfv)
+        raise PyRaise('AttributeError', n)
 
     # calls -----------------------------------------------------------------------
     def ev_call(self, n, scope, func):
